@@ -41,7 +41,9 @@ pub fn inflate(f: &Facts) -> Facts {
         id += 7;
     }
     g.recs[GENE].push(RecFact { id: 4_000_000, name: "BIG".into(), terms: added.clone() });
-    g.recs[OMIM].push(RecFact { id: 4_000_000, name: "big disease".into(), terms: added });
+    // disease names have a 4-byte length field: one OMIM and one ORPHA name beyond a 16-bit length
+    g.recs[OMIM].push(RecFact { id: 4_000_000, name: format!("big disease {}", "x".repeat(65_536)), terms: added.clone() });
+    g.recs[ORPHA].push(RecFact { id: 4_000_001, name: format!("{}é", "y".repeat(70_000)), terms: added.into_iter().take(2).collect() });
     g.ann_calls = g.canonical_ann_calls();
     g
 }
